@@ -63,6 +63,52 @@ def Layout.ofRaw (name : String) (kind size fill doc : Nat) (binary : Bool) (com
   { name := name, kind := kind, size := size, fill := fill, docSize := doc, binary := binary, computed := computed,
     sealStart := sealStart, sealCount := sealCount, regs := raw.map RegL.ofRaw }
 
+
+/-! ### details of a layout (second generated table, aligned with the first): initial values, names (as per-layout ids of the
+    distinct strings), access, enum tables, SHIFT_RIGHT counts, hidden flags as the loaded object has them -/
+
+structure FieldD where
+  reset : Nat                 -- `RegsBitField.reset_value` (configuration units: already shifted left by `shift`)
+  hidden : Bool               -- unnamed gap, or made hidden by `BaseConfigArea._load_registers` (computed field)
+  access : Nat                -- 0 none 1 RO 2 RW 3 WO
+  shift : Nat                 -- SHIFT_RIGHT count (0 = no processor)
+  name : Nat
+  enums : List (Nat × Nat)    -- (value in configuration units, name id), in specification order
+  deriving Repr, DecidableEq
+
+structure RegD where
+  init : Nat                  -- `get_value(raw=True)` of the freshly loaded register
+  name : Nat
+  uid : Nat
+  reverse : Bool
+  access : Nat
+  fields : List FieldD
+  deriving Repr, DecidableEq
+
+structure LayoutD where
+  emptyName : Nat                     -- id of the empty string (an absent uid)
+  computed : List (Nat × Nat × Nat)   -- (register index, rule, index of the computed bit-field)
+  regs : List RegD
+  deriving Repr
+
+def enumPairs : List Nat → List (Nat × Nat)
+  | a :: b :: rest => (a, b) :: enumPairs rest
+  | _ => []
+
+def FieldD.ofRaw : List Nat → FieldD
+  | reset :: flags :: shift :: name :: rest =>
+    { reset := reset, hidden := flags % 2 == 1, access := flags / 2, shift := shift, name := name, enums := enumPairs rest }
+  | _ => { reset := 0, hidden := false, access := 0, shift := 0, name := 0, enums := [] }
+
+def RegD.ofRaw (x : List Nat × List (List Nat)) : RegD :=
+  match x.1 with
+  | init :: name :: uid :: flags :: _ =>
+    { init := init, name := name, uid := uid, reverse := flags % 2 == 1, access := flags / 2, fields := x.2.map FieldD.ofRaw }
+  | _ => { init := 0, name := 0, uid := 0, reverse := false, access := 0, fields := [] }
+
+def LayoutD.ofRaw (emptyName : Nat) (computed : List (Nat × Nat × Nat)) (raw : List (List Nat × List (List Nat))) : LayoutD :=
+  { emptyName := emptyName, computed := computed, regs := raw.map RegD.ofRaw }
+
 abbrev Vals := List Nat
 
 /-! ### export: `Registers.image_info(size, pattern).export()` -/
@@ -183,6 +229,51 @@ def layoutWFb (l : Layout) : Bool :=
      (l.docSize == 0 || l.exportLen == l.docSize) &&
      computedWFb l &&
      (l.sealCount == 0 || (l.size != 0 && l.sealStart + l.sealCount * 4 ≤ l.size))))
+
+
+/-! ### Boolean checkers over a layout together with its details (run by the kernel over the generated tables) -/
+
+def zipAll {α β} (p : α → β → Bool) : List α → List β → Bool
+  | [], [] => true
+  | a :: as, b :: bs => p a b && zipAll p as bs
+  | _, _ => false
+
+/-- both tables describe the same registers and bit-fields -/
+def alignedB (l : Layout) (d : LayoutD) : Bool :=
+  zipAll (fun r rd => r.fields.length == rd.fields.length) l.regs d.regs &&
+  l.computed == d.computed.map (fun c => (c.1, c.2.1))
+
+/-- the initial value fits the register; every bit-field reset value fits its field and IS what the field reads in the initial value -/
+def resetsB (l : Layout) (d : LayoutD) : Bool :=
+  zipAll (fun r rd => decide (rd.init < 2 ^ r.width) &&
+    zipAll (fun f fd => decide (fd.reset >>> fd.shift < 2 ^ f.width) &&
+      ((rd.init >>> f.off) % 2 ^ f.width) <<< fd.shift == fd.reset) r.fields rd.fields) l.regs d.regs
+
+/-- every enum value fits its bit-field (after the SHIFT_RIGHT processor) -/
+def enumsFitB (l : Layout) (d : LayoutD) : Bool :=
+  zipAll (fun r rd => zipAll (fun f fd => fd.enums.all (fun e => decide (e.1 >>> fd.shift < 2 ^ f.width))) r.fields rd.fields) l.regs d.regs
+
+/-- no two registers share a name; no two registers share a (non-empty) uid (XMCD merges the registers of two specification
+    files, header and option block, whose uids are independent: names only) -/
+def regNamesB (l : Layout) (d : LayoutD) : Bool :=
+  nodupB (d.regs.map (·.name)) && (l.kind == 7 || nodupB ((d.regs.map (·.uid)).filter (· != d.emptyName)))
+
+/-- no two bit-fields of one register share a name -/
+def fieldNamesB (d : LayoutD) : Bool := d.regs.all (fun rd => nodupB (rd.fields.map (·.name)))
+
+/-- the computed bit-field named by the database is exactly the bits the rule writes (rule 0: bits 16..31, rule 1: bits 8..15),
+    sits in a 32-bit register and is hidden in the loaded object -/
+def computedTargetsB (l : Layout) (d : LayoutD) : Bool :=
+  d.computed.all (fun c => match l.regs[c.1]?, d.regs[c.1]? with
+    | some r, some rd => match r.fields[c.2.2]?, rd.fields[c.2.2]? with
+      | some f, some fd => r.width == 32 && fd.hidden &&
+          ((c.2.1 == 0 && f.off == 16 && f.width == 16) || (c.2.1 == 1 && f.off == 8 && f.width == 8))
+      | _, _ => false
+    | _, _ => false)
+
+/-- the seal words are whole 32-bit registers -/
+def sealRegsB (l : Layout) : Bool :=
+  (List.range l.sealCount).all (fun k => l.regs.any (fun r => r.off == l.sealStart + 4 * k && r.width == 32))
 
 /-! ### XMCD: header word and CRC -/
 
